@@ -105,6 +105,10 @@ func urlMenu() []qParam {
 	add("fields[]", "x")
 	add("fields[c]", "t")
 	add("fields[cs]", "n,N", "N,n", "Nn,n,N")
+	// unknown names that differ from real ones by letter case only
+	add("fields[a]", "X", "x,X", "Yx,R")
+	add("sort", "X", "-Y,x")
+	add("include", "R", "r.S")
 	add("sort", "--x", "--id", "---y,x", "-yx", "yx,-x", "x,yx", "x,%20", "+", "-x,%09,y", "%20x", "x, y",
 		"x", "-x", "x,x", "x,-x", "x,x,x", "id", "-id", "id,x", "x,id,y", "-", "", "zz", "r", "y,x", ",", "-y,-x", "z", "only")
 	add("include", "r.r,rr", "rr.rr", "r.r.r", "r,%20", "%20", "r", "r,rr", "zz", "zz,yy", "zz,yy,r", "r.s", "r.s.t", "r,r.s", "r.zz", "ab.ab", "ab.r.s", "me", "r.s,rr.s", "", "rr,r", "r,ab", "ab", "rr.s,rr", "r.,r", "s", "t.r", "me.me.me",
